@@ -105,7 +105,13 @@ def do_replay(pid, mod, path):
         if sp is None:
             log('HARNESS-ERROR unknown space %r' % rec['space'])
             return 2
-        r = ex.safe_evaluate(sp, rec['case'])
+        if rec.get('history_dependent'):
+            d = ex.walk_subtree(sp, tuple(rec['subtree'])).dump()
+            hit = [x for x in d['viols'] if json.dumps(jsonable(x['case']), sort_keys=True) == json.dumps(rec['case'], sort_keys=True)]
+            r = ({'v': 'viol', 'sig': dict(hit[0]['signature'], history_dependent=True), 'msg': hit[0]['message'],
+                  'expected': hit[0].get('expected'), 'observed': hit[0].get('observed')} if hit else {'v': 'ok'})
+        else:
+            r = ex.safe_evaluate(sp, rec['case'])
     log('replay verdict: %s' % r['v'])
     if r['v'] == 'viol':
         log('  signature: %s' % json.dumps(jsonable(r['sig']), sort_keys=True))
@@ -224,13 +230,31 @@ def main(argv=None):
         if not v['space'].startswith('bfs:') and v['signature'].get('kind') not in ('hang', 'crash'):
             sp = next((s for s in spaces if s.name == v['space']), None)
             rec = json.load(open(path))
-            r1 = ex.safe_evaluate(sp, rec['case'])
-            r2 = ex.safe_evaluate(sp, rec['case'])
+            r1 = ex.in_fresh_child(ex.safe_evaluate, sp, rec['case'])
+            r2 = ex.in_fresh_child(ex.safe_evaluate, sp, rec['case'])
             if r1['v'] != 'viol' or r2['v'] != 'viol':
-                log('HARNESS-ERROR violation not reproducible from its replay record: %s (%s/%s)'
-                    % (path, r1['v'], r2['v']))
-                harness_error = True
-                continue
+                # not reproducible from the case alone: does it depend on the cases evaluated before it in its sub-tree?
+                # (every sub-tree runs in a fresh process, so re-running the sub-tree is an exact replay of its history)
+                hits = []
+                if v.get('task') is not None:
+                    for _ in range(2):
+                        d = ex.in_fresh_child(ex._task_body, spaces, spaces.index(sp), tuple(v['task']))
+                        hits.append(any(json.dumps(jsonable(x['case']), sort_keys=True) == json.dumps(jsonable(v['case']), sort_keys=True)
+                                        for x in d['viols']))
+                if hits and all(hits):
+                    rec['history_dependent'] = True
+                    rec['subtree'] = v['task']
+                    rec['signature'] = dict(rec['signature'], history_dependent=True)
+                    rec['message'] = ('(the violation needs the cases evaluated before it in its sub-tree: the result depends on '
+                                      'call history) ' + rec['message'])
+                    with open(path, 'w') as f:
+                        json.dump(rec, f, indent=1, sort_keys=True)
+                    v = dict(v, signature=rec['signature'], message=rec['message'])
+                else:
+                    log('HARNESS-ERROR violation not reproducible from its replay record: %s (%s/%s, sub-tree %s)'
+                        % (path, r1['v'], r2['v'], hits))
+                    harness_error = True
+                    continue
         log('VIOLATION property=%s replay=%s' % (pid, path))
         log('    %s | %s' % (json.dumps(jsonable(v['signature']), sort_keys=True)[:300], v['message'][:300]))
         printed += 1
